@@ -771,6 +771,70 @@ func c05MatGroups(names []string, meshes []modeling.Mesh, expectNil bool) string
 	return strings.Join(parts, " ")
 }
 
+// several models saved into ONE directory under base names that end in o, b, j, '.', digits (incl. pairs that
+// would collide if the ".obj" suffix were stripped as a character set), ALL saved first, THEN each loaded again
+var c05FsNames = []string{"panel_b.obj", "panel_o.obj", "lod0.obj", "lod0b.obj", "lod0j.obj", "a.j.obj", "a.obj", "ab.obj", "obj.obj",
+	"bob.obj", "x.o.obj", "model.v2.obj", "job", "nob.obj", "7.obj", "70.obj"}
+
+func (c *Ctx) c05FsDirCase(dir string, round int) {
+	sub := filepath.Join(dir, fmt.Sprintf("set_%d", round))
+	if err := os.MkdirAll(sub, 0o755); err != nil {
+		return
+	}
+	perm := c.Rng.Perm(len(c05FsNames))
+	n := 3 + c.Rng.Intn(4)
+	type saved struct {
+		path, want string
+	}
+	var all []saved
+	for k := 0; k < n; k++ {
+		base := c05FsNames[perm[k]]
+		// one mesh, materials unique to THIS model (so that a shared / overwritten .mtl is visible)
+		nt := 1 + c.Rng.Intn(5)
+		idx := make([]int, 3*nt)
+		for j := range idx {
+			idx[j] = c.Rng.Intn(4)
+		}
+		pos := []vector3.Float64{vector3.New(0., 0., float64(k)), vector3.New(1., 0., float64(k)), vector3.New(0., 1., float64(k)), vector3.New(1., 1., float64(k))}
+		var mm []modeling.MeshMaterial
+		for r, cnt := range c.c05Partition(nt) {
+			tex := fmt.Sprintf("t_%d_%d.png", k, r)
+			mm = append(mm, modeling.MeshMaterial{PrimitiveCount: cnt, Material: &modeling.Material{
+				Name: fmt.Sprintf("m_%s_%d", strings.ReplaceAll(base, ".", "_"), r), SpecularHighlight: float64(20 + 7*k + r),
+				DiffuseColor: color.RGBA{R: uint8(255 * (k & 1)), G: uint8(255 * (r & 1)), B: 255, A: 255}, ColorTextureURI: &tex}})
+		}
+		mesh := modeling.NewTriangleMesh(idx).SetFloat3Attribute(modeling.PositionAttribute, pos).SetMaterials(mm)
+		p := filepath.Join(sub, base)
+		ok := Guard(func() string {
+			if err := obj.Save(p, mesh); err != nil {
+				return "save-err"
+			}
+			return "ok"
+		})
+		if ok != "ok" {
+			c.Emit("c05.holds.fs_materials", c05MatGroups([]string{""}, []modeling.Mesh{mesh}, true)+" "+ok, "true")
+			continue
+		}
+		all = append(all, saved{p, c05MatGroups([]string{""}, []modeling.Mesh{mesh}, true)})
+	}
+	for _, sv := range all { // only now: load every one of them again
+		got := Guard(func() string {
+			back, err := obj.Load(sv.path)
+			if err != nil {
+				return "load-err"
+			}
+			bn := make([]string, len(back))
+			bm := make([]modeling.Mesh, len(back))
+			for i, g := range back {
+				bn[i], bm[i] = g.Name, g.Mesh
+			}
+			return c05MatGroups(bn, bm, false)
+		})
+		c.Emit("c05.holds.fs_materials", sv.want+" "+got, "true")
+		c.Note("fs.shared-dir-load")
+	}
+}
+
 func (c *Ctx) c05FsCase(dir string, k int) {
 	// a pool of distinct materials (distinct name, Ns, Kd, texture)
 	np := 2 + c.Rng.Intn(3)
@@ -944,6 +1008,9 @@ func runC05(c *Ctx) {
 		}
 		for k := 0; k < nfs; k++ {
 			c.c05FsCase(dir, k)
+			if k%5 == 0 {
+				c.c05FsDirCase(dir, k)
+			}
 		}
 		os.RemoveAll(dir)
 	} else {
